@@ -250,6 +250,7 @@ impl<'a, 'tcx> H<'a, 'tcx> {
                 if let Some(f) = f {
                     o.push(("else", self.expr(f)));
                 }
+                o.push(("t", self.ety(e)));
                 o.push(ln);
                 J::Obj(o)
             },
@@ -282,6 +283,7 @@ impl<'a, 'tcx> H<'a, 'tcx> {
                         None => J::Null,
                     }),
                     ("arms", J::Arr(av)),
+                    ("t", self.ety(e)),
                     ln,
                 ])
             },
